@@ -11,6 +11,7 @@ mod variation;
 mod weighted;
 mod choices;
 mod compose;
+mod functional;
 mod generation;
 mod laws;
 mod ordering;
@@ -49,6 +50,8 @@ fn dispatch(cmd: &str, rest: &[String]) -> i32 {
         "cmp-replay" => compose::replay(rest),
         "cmp-trace" => compose::trace(rest),
         "law-var" => laws::run(rest),
+        "fn-trace" => functional::trace(rest),
+        "fn-push-trace" => functional::push_trace(rest),
         "gen-trace" => generation::trace(rest),
         "ord-replay" => ordering::replay(rest),
         "ord-construct" => ordering::construct_trace(rest),
